@@ -217,7 +217,7 @@ func spellSerial(n *big.Int, i int) string {
 	return n.Text(10)
 }
 
-// spellings for the SSH route (which does not parse the string at all)
+// spellings for the SSH route (strconv.ParseUint base 10: 0, 1, 4 are accepted, the others refused)
 func spellSSHSerial(n uint64, i int) string {
 	d := strconv.FormatUint(n, 10)
 	switch i {
@@ -227,6 +227,10 @@ func spellSSHSerial(n uint64, i int) string {
 		return "+" + d
 	case 3:
 		return "0x" + strconv.FormatUint(n, 16)
+	case 4:
+		return "000" + d
+	case 5:
+		return d[:1] + "_" + d[1:]
 	}
 	return d
 }
